@@ -573,6 +573,15 @@ func measure(g *Group) []byte {
 		a = r.stream(f, tabs)
 		g.Total = len(a)
 		g.DataEnd, g.Opt = demanded(g.Op, a)
+		if g.Op == "sa:glyf.Decode(loca cut)" {
+			size := 2
+			if locaFormat(tabs) != 0 {
+				size = 4
+			}
+			for k := size; k < len(a); k += size {
+				g.Opt = append(g.Opt, k)
+			}
+		}
 		var evs []ev
 		gg := *g
 		gg.Mode = "trunc"
@@ -664,20 +673,28 @@ func tabCache(g *Group) map[string][]byte {
 // demanded returns the extent of a stream inside which a cut must be rejected, and the positions
 // inside it at which the format nevertheless allows the stream to end (spec/IOFault.tla, opt).
 func demanded(op string, data []byte) (int, []int) {
-	switch op {
-	case "sa:os2.Read":
-		// the OS/2 table grew over its versions: 68 bytes (version 0, Apple), 78, 86 (version 1), 96
-		var opt []int
-		for _, b := range []int{68, 78, 86} {
-			if b < len(data) {
-				opt = append(opt, b)
-			}
+	if strings.HasPrefix(op, "sa:os2.Read") {
+		// OS/2: 68 bytes are the core every version starts with; the reader documents that it takes a
+		// table ending there whatever version it declares (short Apple tables).  Versions 0 and 1 are
+		// decoded up to byte 78 only (the version 1 code page field is not decoded; what follows byte 78
+		// of such a stream is not looked at); a stream that declares version 2..5 is complete only at
+		// 96 bytes (the additional version 5 fields are not decoded).
+		version := int(data[0])<<8 | int(data[1])
+		end := 96
+		if version < 2 {
+			end = 78
 		}
-		return len(data), opt
+		if end > len(data) {
+			end = len(data)
+		}
+		return end, []int{68}
+	}
+	switch op {
 	case "sa:glyf.Decode(loca cut)":
-		// a loca table has no length field: every whole number of entries is a complete table for a
-		// font with fewer glyphs (glyf.Decode is not told the glyph count); only "no panic" is demanded
-		return 0, nil
+		// a loca table has no length field of its own: after every whole entry it is a complete table
+		// of a font with fewer glyphs (glyf.Decode is not told the glyph count); a cut inside an entry
+		// is not.  An entry has 2 bytes (short format, head.indexToLocFormat = 0) or 4.
+		return len(data), nil // the optional ends are filled in by locaEnds (needs the head table)
 	case "sa:header.Read+ReadTableBytes":
 		return sfntwalk.Walk(data).DataEnd(), nil
 	}
